@@ -260,21 +260,23 @@ def run(R):
                 "%s can be constructed without being completed with its argument" % cname, cfg.fmt_path(p) if p else None)
     # AsyncTask completion helpers carry the guard (they raise when computed)
     at = ro.AsyncTask
-    for mname, setter in (("_queue_exit", "set_value"), ("_queue_throw_error", "set_error")):
-        m = at.methods.get(mname)
-        R.need(m is not None, "anchor vanished: AsyncTask.%s" % mname)
-        cfg = cfg_of(m)
-        sets = [n for n, cc in kit.call_sites(m, lambda cc: q.call_name(cc) == "self." + setter)]
-        g = computed_raise_guard("self")
-        p = kit.path_avoiding_guard(cfg, sets, g, N)
-        R.check(p is None and sets, "C10.GUARD", "%s:%s" % (m.qualname, setter), R.site(m),
-                "%s completes the task only when it is not computed" % mname, "%s can complete an already computed task" % mname,
-                cfg.fmt_path(p) if p else None)
-        p0 = q.param_names(m.node)[1]
-        okp = all(q.src(cc.args[0]) == p0 for n, cc in kit.call_sites(m, lambda cc: q.call_name(cc) == "self." + setter) if cc.args)
-        R.check(okp, "C10.GUARD", "%s:%s:arg" % (m.qualname, setter), R.site(m),
-                "%s passes its argument unchanged to %s" % (mname, setter), "%s does not pass its argument unchanged to %s" % (mname, setter))
-
+    n_direct = 0
+    for m in at.methods.values():
+        if m.name in ("set_value", "set_error", "__init__"):
+            continue
+        for setter in ("set_value", "set_error"):
+            calls_ = kit.call_sites(m, lambda cc: q.call_name(cc) == "self." + setter)
+            if not calls_:
+                continue
+            n_direct += 1
+            cfg = cfg_of(m)
+            sets = [n for n, cc in calls_]
+            g = computed_raise_guard("self")
+            p = kit.path_avoiding_guard(cfg, sets, g, N)
+            R.check(p is None, "C10.GUARD", "%s:%s" % (m.qualname, setter), R.site(m),
+                    "%s calls %s only when the task is not computed" % (m.name, setter), "%s can complete an already computed task" % m.name,
+                    cfg.fmt_path(p) if p else None)
+    R.units["asynctask_direct_completions"] = n_direct
 
 def notify_override_rule(R, ro, rule):
     """Every _computed override reaches the base notification on every exit."""
